@@ -25,7 +25,7 @@ LEVEL_TEXT = ("Analytic polar-stereographic grids (random pole, rotation, resolu
 LEVEL_NOTE = "Position error bound = 1.5*sqrt(tol)/sigma_min(J) with tol = 1e-7 (bilin_inv's stopping rule), J = local Jacobian in degrees per cell; trusts numpy/netCDF4 and the closed-form projection in the harness."
 RULE = ("cases: sample2d chunks (random fields/masks/positions/substitutes), roundtrip (one grid x subgrid x 2000 positions), e2e (lon/lat release + lon/lat output, sparse and dense). "
         "Non-trivial: positions within one cell of the rim of the valid region are present / masked or outside points present; distinct by grid parameters.")
-MANDATORY = ["e2e_inactive_particles", "e2e_split_output_files", "post_sample2D", "roundtrip_positions", "longitudes_beyond_180", "rim_positions", "subgrid", "outside_value_zero", "outside_value_nan", "masked_corner",
+MANDATORY = ["positions_within_1e-9_of_a_masked_edge", "grid_longer_than_700_cells", "e2e_inactive_particles", "e2e_split_output_files", "post_sample2D", "roundtrip_positions", "longitudes_beyond_180", "rim_positions", "subgrid", "outside_value_zero", "outside_value_nan", "masked_corner",
              "all_masked", "outside_raises", "e2e_lonlat_release", "e2e_lonlat_output", "exact_bilinear_field", "fine_grid_below_250m", "e2e_fine_grid_below_250m"]
 ASSUMPTIONS = ["grids are conformal and smooth (polar stereographic) as the property quantifies; the branch cut of longitude is kept outside the grid"]
 TIMEOUT = {"quick": 600, "thorough": 3000}
@@ -142,6 +142,18 @@ def _case_sample2d(case, S, V, sit, cnt, keys):
         Y = rng.uniform(-1.0, jmax, size=npnt)
         X[:3] = np.clip(np.round(X[:3]), 0, imax - 1)  # nodes and edges
         Y[:2] = np.clip(np.round(Y[:2]), 0, jmax - 1)
+        if mask is not None and np.any(mask) and imax > 4 and jmax > 4:
+            # positions a hair's breadth from an edge whose own nodes are masked: the (tiny-weight) sea nodes on the far side still give the value
+            mask[:, 1] = 0.0
+            mask[:, 2] = 1.0
+            mask[1, :] = 0.0
+            mask[2, :] = 1.0
+            mask[1, 1] = 0.0
+            X[3:6] = 1.0 + np.array([1e-9, 1e-11, 1e-13])
+            Y[3:6] = rng.uniform(2.0, jmax - 2.0, size=3)
+            Y[6:8] = 1.0 + np.array([1e-9, 1e-12])
+            X[6:8] = rng.uniform(2.0, imax - 2.0, size=2)
+            _bump(sit, "positions_within_1e-9_of_a_masked_edge", 5)
         inside = (X >= 0) & (X < imax - 1) & (Y >= 0) & (Y < jmax - 1)
         ov = [None, 0.0, -1.0, float("nan"), 99.5][int(rng.integers(5))]
         uv = [0.0, -999.0, float("nan")][int(rng.integers(3))]
@@ -203,6 +215,12 @@ def _case_sample2d(case, S, V, sit, cnt, keys):
 def _case_roundtrip(case, R, wd, V, sit, cnt, keys):
     rng = C.rng_for(case["seed"], 16, case["idx"], 1)
     imax, jmax = int(rng.integers(12, 41)), int(rng.integers(10, 33))
+    if case["idx"] % 16 == 5:
+        # a long grid: targets hundreds of cells away from the middle, where the inverse starts its search
+        imax, jmax = int(rng.integers(700, 1201)), int(rng.integers(40, 81))
+        if case["idx"] % 32 == 21:
+            imax, jmax = jmax, imax
+        _bump(sit, "grid_longer_than_700_cells")
     pol = polar_spec(rng, imax, jmax, fine=case["idx"] % 4 == 0)
     if pol["dx"] <= 250.0:
         _bump(sit, "fine_grid_below_250m")
